@@ -7,10 +7,30 @@ from . import canon, paths, tables
 from .build import AnalysisBroken
 
 
+def _through_pointer_temp(F, arg):
+    """A local that only holds the address of a sub-object (`p = &obj->field`) stands for that
+    sub-object: return the defining `&...` node, else the argument itself."""
+    n = F.nodes[F.strip(arg)]
+    hops = 0
+    while n.get("k") == "ref" and n.get("dk") == "var" and hops < 3:
+        d = canon.reaching_def(F, n["n"], arg)
+        if not isinstance(d, int):
+            break
+        dn = F.nodes[F.strip(d)]
+        if dn.get("k") == "un" and dn["op"] == "&" and F.nodes[F.strip(dn["e"])].get("k") in ("mem", "idx"):
+            return d
+        if dn.get("k") == "ref" and dn.get("dk") == "var":
+            arg, n = d, dn
+            hops += 1
+            continue
+        break
+    return arg
+
+
 def lockpath(F, arg):
     """Variable-name independent identity of a lock argument: 'ABTI_cond::lock' for
-    &p_cond->lock, 'var:p_lock' for a plain pointer variable."""
-    fp = F.fieldpath(arg)
+    &p_cond->lock (also through a pointer temporary), 'var:p_lock' for a plain pointer variable."""
+    fp = F.fieldpath(_through_pointer_temp(F, arg))
     return fp[1:] if fp.startswith("&") else fp
 
 
@@ -23,7 +43,7 @@ def argpaths(F, nd):
         elif n.get("k") == "ref" and n.get("dk") == "enum":
             out.append(n["n"])
         else:
-            fp = F.fieldpath(a)
+            fp = F.fieldpath(_through_pointer_temp(F, a))
             out.append(fp)
     return tuple(out)
 
@@ -154,6 +174,14 @@ class Sel:
         if self.conds is None or ctx.cond_node is None:
             return None
         if self.canon:
+            cn = F.nodes[F.strip(ctx.cond_node)]
+            if cn.get("k") == "ref" and cn.get("dk") == "var" and cn.get("n", "").startswith("ret_") and \
+                    any(cn["n"] == "ret_" + h or cn["n"].startswith("ret_%s__i" % h) for h in getattr(F.prog, "inlined", {})) and \
+                    ctx.value(ctx.cond_node) is not None:
+                # the result temporary of a flattened helper whose value the path has already decided
+                # (each `return` of the helper assigned a constant or a decided ternary): the tests that
+                # decided it are on the path; this branch adds nothing
+                return None
             text, flip = canon.cond(F, ctx.cond_node)
             val = bool(ctx.cond_val) != flip
             try:
